@@ -281,6 +281,7 @@ def r3_2(ctx, rc):
                     rc.ok({'sink': key, 'origins': sorted(tags)}, key=key)
     if n < 12:
         raise AnalysisError('only %d deletable-path sinks found' % n)
+    created_predicates_agree(ctx, rc)
     # os.rmdir arguments (through the parameters of their functions)
     for f in prog.funcs.values():
         for call in prog.calls_in(f):
@@ -298,6 +299,44 @@ def r3_2(ctx, rc):
                                  key=key)
                 else:
                     rc.ok({'sink': key, 'origins': sorted(tags)}, key=key)
+
+
+def created_predicates_agree(ctx, rc):
+    """Sibling agreement: the cache's three views of "this path is an
+    output of the build" (by name, by norm-cased name, as a list) decide by
+    the same record flags.  Rollback, commit, clean and the virtual view use
+    different ones of them for the same question; a view that tests another
+    flag makes them disagree about one file (kept by one, deleted or hidden
+    by the other)."""
+    prog = ctx.prog
+    C = ctx.R.cache
+    flags = {'raised', 'setup_failed', 'is_finished'}
+    views = {}
+    for m in prog.classes[C].methods.values():
+        if not (m.name.startswith('created_') and 'file' in m.name):
+            continue
+        fs = [m]
+        for c in prog.calls_in(m):       # a shared private predicate
+            for g in prog.resolve_call(c, m):
+                if isinstance(g, Func) and g.cls == C and \
+                        not g.is_public and g not in fs:
+                    fs.append(g)
+        used = {n.attr for f0 in fs for n in ast.walk(f0.node)
+                if isinstance(n, ast.Attribute) and n.attr in flags}
+        views[m.qualname] = used
+    if len(views) < 3:
+        raise AnalysisError('only %d created-file views on %s' % (
+            len(views), C))
+    key = 'created-file views decide by the same record flags'
+    if len({frozenset(v) for v in views.values()}) > 1:
+        rc.violation(
+            'created-views-disagree | ' + C,
+            'the created-file views of %s test different record flags: %s'
+            % (C, {k: sorted(v) for k, v in sorted(views.items())}),
+            prog.classes[C].module, key=key)
+    else:
+        rc.ok({'views': sorted(views), 'flags': sorted(
+            next(iter(views.values())))}, key=key)
 
 
 def _static_api_only(ctx, f, seen=None):
